@@ -72,4 +72,46 @@ theorem mvCmpOk {β : Type} :
     have e2' : ¬ (e2 < e3 ∨ (e3 = e2 ∧ q2 < q3)) := fun h => h2 ((mvCmp_lt _ _ _ _).mpr h)
     omega
 
+/-- ORDER BY seq DESC -/
+def seqKeyOk (k : List Value) : Prop := ∃ (q : Int), k = [.int q]
+
+def seqCmp (k1 k2 : List Value) : Ordering :=
+  match k1, k2 with
+  | [.int q1], [.int q2] => if q2 < q1 then .lt else if q1 < q2 then .gt else .eq
+  | _, _ => .eq
+
+theorem seqCmp_lt (q1 q2 : Int) : seqCmp [.int q1] [.int q2] = .lt ↔ q2 < q1 := by
+  simp only [seqCmp]
+  repeat' split
+  all_goals simp
+  all_goals omega
+
+theorem seqCmpOk {β : Type} :
+    CmpOk (fun (x y : List Value × β) => cmpOrderKeys x.1 y.1 [true] [NullsOrder.dflt]) (fun x y => seqCmp x.1 y.1) (fun x => seqKeyOk x.1) where
+  ok := by
+    intro x y ⟨q1, hx⟩ ⟨q2, hy⟩
+    rw [hx, hy]
+    simp only [cmpOrderKeys, compareForSort_int, bind, Except.bind, pure, Except.pure, seqCmp, if_true, flip_cmpInt]
+    by_cases h3 : q2 < q1
+    · simp [h3]
+    · by_cases h4 : q1 < q2 <;> simp [h3, h4]
+  asymm := by
+    intro x y ⟨q1, hx⟩ ⟨q2, hy⟩ h
+    rw [hx, hy] at h ⊢
+    rw [seqCmp_lt] at h
+    intro h'
+    rw [seqCmp_lt] at h'
+    omega
+  negTrans := by
+    intro x y z ⟨q1, hx⟩ ⟨q2, hy⟩ ⟨q3, hz⟩ h1 h2
+    rw [hx, hy] at h1
+    rw [hy, hz] at h2
+    rw [hx, hz]
+    intro h3
+    rw [seqCmp_lt] at h3
+    have e1 : ¬ q1 < q2 := fun h => h1 ((seqCmp_lt _ _).mpr h)
+    have e2 : ¬ q2 < q3 := fun h => h2 ((seqCmp_lt _ _).mpr h)
+    omega
+
+
 end Ledger.Sql
